@@ -343,6 +343,23 @@ class AxisChecker:
                 vr = self.role(val, quiet=True)
                 if tr and vr:
                     self.ob("assign", node, [tr, vr])
+                elif tr and isinstance(val, ast.BinOp) and \
+                        isinstance(val.op, ast.Mult):
+                    # origin = index * size: every axis-typed factor of a
+                    # product assigned to an axis-typed name is on that axis
+                    factors = []
+
+                    def flat(n):
+                        if isinstance(n, ast.BinOp) and isinstance(n.op, ast.Mult):
+                            flat(n.left)
+                            flat(n.right)
+                        else:
+                            factors.append(n)
+                    flat(val)
+                    fr = [self.role(f, quiet=True) for f in factors]
+                    typed = [r for r in fr if r]
+                    if typed:
+                        self.ob("assign-product", node, [tr] + typed)
                 # array allocated with a shape in the wrong order
                 lay = LAYOUTS.get((self.ms, t.id))
                 if lay and isinstance(val, ast.Call):
